@@ -1,7 +1,11 @@
 (* C14.v — Map behaves exactly like a Go map and its views stay coherent
    Statements only: every theorem is closed by [exact] of a lemma proved elsewhere, and its
-   axioms are printed.  Generated once by tools/mkprop.py from the proved lemmas' statements. *)
-From Verif Require Import Base Seq Coll AssocProofs.
+   axioms are printed.  Generated once by tools/mkprop.py from the proved lemmas' statements. 
+   Round 2 (polish): an [Example] of non-vacuity beside the theorems with hypotheses (data in AssocProofs2.v);
+   from C14_go_key_equality_is_symmetric on: the hypotheses on "==" discharged for the pool's keys, the Map
+   operations and constructors of the pool machine, views as new objects that survive later updates. *)
+From Verif Require Import Base Sorter SorterProofs Value Seq Coll Pool PoolFrame AssocProofs SorterProofs2 AssocProofs2.
+Local Open Scope nat_scope.
 
 Theorem C14_every_history_refines_the_abstract_map :
   forall (K V : Type) (keq : K -> K -> bool),
@@ -12,12 +16,34 @@ Theorem C14_every_history_refines_the_abstract_map :
          forall x : K, a_get keq (arun K V keq m ops) x = frun K V keq (a_get keq m) ops x.
 Proof. exact C03_refines. Qed.
 
+(* non-vacuity: the map a:1 b:2 c:3 (Go string keys; Value.keq is symmetric and transitive) and the history
+   set d, overwrite b, remove a, remove the absent z, set a again; lookups agree with the abstract Go map *)
+Example C14_every_history_refines_the_abstract_map_example :
+  (forall a b : val, keq a b = keq b a) /\
+  (forall a b c : val, keq a b = true -> keq b c = true -> keq a c = true) /\ wfm val val keq ex_cat /\
+  (forall x : val, a_get keq (arun val val keq ex_cat ex_aops) x = frun val val keq (a_get keq ex_cat) ex_aops x) /\
+  a_get keq (arun val val keq ex_cat ex_aops) kb = Some (iv 20) /\
+  a_get keq (arun val val keq ex_cat ex_aops) (ks [122]%Z) = None.
+Proof.
+  split; [exact keq_sym|]. split; [exact keq_trans|]. split; [exact (distinctb_ok val val keq ex_cat eq_refl)|].
+  split; [|split; vm_compute; reflexivity].
+  apply (C14_every_history_refines_the_abstract_map val val keq keq_sym keq_trans). exact (distinctb_ok val val keq ex_cat eq_refl).
+Qed.
+
 Theorem C14_keys_stay_distinct :
   forall (K V : Type) (keq : K -> K -> bool),
          (forall a b : K, keq a b = keq b a) ->
          forall (ops : list (aop K V)) (m : list (K * V)),
          wfm K V keq m -> wfm K V keq (arun K V keq m ops).
 Proof. exact C03_inv. Qed.
+
+Example C14_keys_stay_distinct_example :
+  wfm val val keq ex_cat /\ wfm val val keq (arun val val keq ex_cat ex_aops) /\
+  length (arun val val keq ex_cat ex_aops) = 4.
+Proof.
+  split; [exact (distinctb_ok val val keq ex_cat eq_refl)|]. split; [|vm_compute; reflexivity].
+  apply (C14_keys_stay_distinct val val keq keq_sym). exact (distinctb_ok val val keq ex_cat eq_refl).
+Qed.
 
 Theorem C14_each_association_once :
   forall (K V : Type) (keq : K -> K -> bool),
@@ -27,15 +53,33 @@ Theorem C14_each_association_once :
          wfm K V keq m -> forall (k : K) (v : V), In (k, v) m -> a_get keq m k = Some v.
 Proof. exact C03_views. Qed.
 
+(* non-vacuity: reflexivity of "==" for ALL keys holds for int keys; for the pool's keys see
+   C14_each_association_once_at_self_equal_keys (NaN keys are not equal to themselves) *)
+Example C14_each_association_once_example :
+  (forall k : Z, Z.eqb k k = true) /\ (forall a b : Z, Z.eqb a b = Z.eqb b a) /\
+  wfm Z Z Z.eqb [(1, 10); (2, 20)]%Z /\ a_get Z.eqb [(1, 10); (2, 20)]%Z 2%Z = Some 20%Z.
+Proof.
+  split; [exact Z.eqb_refl|]. split; [exact Z.eqb_sym|]. split; [apply (distinctb_ok Z Z Z.eqb); reflexivity|reflexivity].
+Qed.
+
 Theorem C14_each_association_once_conv :
   forall (K V : Type) (keq : K -> K -> bool) (m : list (K * V)) (x : K) (v : V),
          a_get keq m x = Some v -> exists k : K, In (k, v) m /\ keq x k = true.
 Proof. exact C03_views_conv. Qed.
 
+Example C14_each_association_once_conv_example :
+  a_get keq ex_cat kb = Some (iv 2) /\ In (kb, iv 2) ex_cat /\ keq kb kb = true.
+Proof. split; [vm_compute; reflexivity|]. split; [right; left; reflexivity|vm_compute; reflexivity]. Qed.
+
 Theorem C14_absent_reads_zero :
   forall (K V : Type) (vzero : V) (keq : K -> K -> bool) (m : list (K * V)) (k : K),
          a_get keq m k = None -> a_get_or_zero vzero keq m k = vzero.
 Proof. exact a_get_or_zero_absent. Qed.
+
+Example C14_absent_reads_zero_example :
+  a_get keq ex_cat kd = None /\ a_get_or_zero (iv 0) keq ex_cat kd = iv 0 /\
+  a_remove keq ex_cat kd = ex_cat.
+Proof. repeat split; vm_compute; reflexivity. Qed.
 
 Theorem C14_lookup_after_set :
   forall (K V : Type) (keq : K -> K -> bool),
@@ -45,6 +89,12 @@ Theorem C14_lookup_after_set :
          a_get keq (a_set keq m k v) x = (if keq x k then Some v else a_get keq m x).
 Proof. exact a_get_set. Qed.
 
+Example C14_lookup_after_set_example :
+  (forall a b : val, keq a b = keq b a) /\
+  (forall a b c : val, keq a b = true -> keq b c = true -> keq a c = true) /\
+  a_get keq (a_set keq ex_cat kb (iv 20)) kb = Some (iv 20) /\ a_get keq (a_set keq ex_cat kb (iv 20)) kc = Some (iv 3).
+Proof. split; [exact keq_sym|]. split; [exact keq_trans|]. split; vm_compute; reflexivity. Qed.
+
 Theorem C14_lookup_after_remove :
   forall (K V : Type) (keq : K -> K -> bool),
          (forall a b : K, keq a b = keq b a) ->
@@ -52,6 +102,10 @@ Theorem C14_lookup_after_remove :
          forall (m : list (K * V)) (k x : K),
          wfm K V keq m -> a_get keq (a_remove keq m k) x = (if keq x k then None else a_get keq m x).
 Proof. exact a_get_remove. Qed.
+
+Example C14_lookup_after_remove_example :
+  wfm val val keq ex_cat /\ a_get keq (a_remove keq ex_cat kb) kb = None /\ a_get keq (a_remove keq ex_cat kb) kc = Some (iv 3).
+Proof. split; [exact (distinctb_ok val val keq ex_cat eq_refl)|]. split; vm_compute; reflexivity. Qed.
 
 Theorem C14_bulk_remove :
   forall (K V : Type) (vzero : V) (keq : K -> K -> bool),
@@ -66,6 +120,12 @@ Theorem C14_bulk_remove :
           (if existsb (keq x) ks then None else a_get keq m x)).
 Proof. exact a_remove_all_spec. Qed.
 
+(* non-vacuity: RemoveValues([c, z, a, c]): duplicate key c and absent key z read as the zero value *)
+Example C14_bulk_remove_example :
+  wfm val val keq ex_cat /\
+  a_remove_all (iv 0) keq ex_cat ex_req = ([iv 3; iv 0; iv 1; iv 0], [(kb, iv 2)]).
+Proof. split; [exact (distinctb_ok val val keq ex_cat eq_refl)|vm_compute; reflexivity]. Qed.
+
 Theorem C14_constructors_last_wins :
   forall (K V : Type) (keq : K -> K -> bool),
          (forall a b : K, keq a b = keq b a) ->
@@ -78,11 +138,20 @@ Theorem C14_constructors_last_wins :
          end.
 Proof. exact a_set_all_get. Qed.
 
+Example C14_constructors_last_wins_example :
+  a_set_all keq [] [(ka, iv 1); (kb, iv 2); (ka, iv 7)] = [(ka, iv 7); (kb, iv 2)] /\
+  a_get keq (a_set_all keq [] [(ka, iv 1); (kb, iv 2); (ka, iv 7)]) ka = Some (iv 7).
+Proof. split; vm_compute; reflexivity. Qed.
+
 Theorem C14_constructors_distinct :
   forall (K V : Type) (keq : K -> K -> bool),
          (forall a b : K, keq a b = keq b a) ->
          forall kvs m : list (K * V), wfm K V keq m -> wfm K V keq (a_set_all keq m kvs).
 Proof. exact a_set_all_wf. Qed.
+
+Example C14_constructors_distinct_example :
+  wfm val val keq (a_set_all keq [] [(ka, iv 1); (kb, iv 2); (ka, iv 7)]).
+Proof. apply (C14_constructors_distinct val val keq keq_sym). exact I. Qed.
 
 Theorem C14_unordered_views :
   forall (K V : Type) (keq : K -> K -> bool),
@@ -92,6 +161,113 @@ Theorem C14_unordered_views :
          wfm K V keq m ->
          Permutation.Permutation m m' -> forall x : K, a_get keq m' x = a_get keq m x.
 Proof. exact a_get_perm. Qed.
+
+(* non-vacuity: any iteration order (a permutation) of the map describes the same associations *)
+Example C14_unordered_views_example :
+  wfm val val keq ex_cat /\ Permutation.Permutation ex_cat [(kc, iv 3); (ka, iv 1); (kb, iv 2)] /\
+  (forall x : val, a_get keq [(kc, iv 3); (ka, iv 1); (kb, iv 2)] x = a_get keq ex_cat x).
+Proof.
+  assert (P : Permutation.Permutation ex_cat [(kc, iv 3); (ka, iv 1); (kb, iv 2)]).
+  { unfold ex_cat. apply Permutation.Permutation_sym. apply (Permutation.Permutation_cons_app [(ka, iv 1); (kb, iv 2)] []). apply Permutation.Permutation_refl. }
+  split; [exact (distinctb_ok val val keq ex_cat eq_refl)|]. split; [exact P|].
+  apply (C14_unordered_views val val keq keq_sym keq_trans ex_cat _ (distinctb_ok val val keq ex_cat eq_refl) P).
+Qed.
+
+Theorem C14_go_key_equality_is_symmetric :
+  forall a b : val, keq a b = keq b a.
+Proof. exact keq_sym. Qed.
+
+Theorem C14_go_key_equality_is_transitive :
+  forall a b c : val, keq a b = true -> keq b c = true -> keq a c = true.
+Proof. exact keq_trans. Qed.
+
+Theorem C14_each_association_once_at_self_equal_keys :
+  forall (K V : Type) (keq : K -> K -> bool),
+         (forall a b : K, keq a b = keq b a) ->
+         forall m : list (K * V),
+         wfm K V keq m ->
+         forall (k : K) (v : V), In (k, v) m -> keq k k = true -> a_get keq m k = Some v.
+Proof. exact views_agree_at. Qed.
+
+Theorem C14_remove_returns_the_stored_value :
+  forall (K V : Type) (vzero : V) (keq : K -> K -> bool) (m : list (K * V)) (k : K) (v : V),
+         a_get keq m k = Some v -> a_get_or_zero vzero keq m k = v.
+Proof. exact a_get_or_zero_present. Qed.
+
+Theorem C14_bulk_remove_values_in_key_order :
+  forall (K V : Type) (vzero : V) (keq : K -> K -> bool) (m : list (K * V)) 
+           (k : K) (ks : list K),
+         a_remove_all vzero keq m (k :: ks) =
+         (a_get_or_zero vzero keq m k :: fst (a_remove_all vzero keq (a_remove keq m k) ks),
+          snd (a_remove_all vzero keq (a_remove keq m k) ks)).
+Proof. exact a_remove_all_cons. Qed.
+
+Theorem C14_pool_keys_history_refines_the_abstract_map :
+  forall (ops : list (aop val val)) (m : list (val * val)),
+         wfm val val keq m ->
+         forall x : val, a_get keq (arun val val keq m ops) x = frun val val keq (a_get keq m) ops x.
+Proof. exact val_history_refines_the_abstract_map. Qed.
+
+Theorem C14_pool_map_operations :
+  forall (zero : val) (p : list obj) (o : nat) (m : list (val * val)) (k v : val),
+         o < length p ->
+         get p o = OMap m ->
+         nth o (fst (step zero p (Pool.ASet o k v))) ODead = OMap (a_set keq m k v) /\
+         (nth o (fst (step zero p (Pool.ARemove o k))) ODead = OMap (a_remove keq m k) /\
+          snd (step zero p (Pool.ARemove o k)) = RVal (a_get_or_zero zero keq m k)) /\
+         snd (step zero p (AGet o k)) = RVal (a_get_or_zero zero keq m k) /\
+         nth o (fst (step zero p (RemoveAll o))) ODead = OMap [] /\
+         snd (step zero p (GetSize o)) = RInt (Z.of_nat (length m)).
+Proof. exact pool_map_ops. Qed.
+
+Theorem C14_pool_bulk_remove :
+  forall (zero : val) (p : list obj) (o keys : nat) (ks : list val),
+         o < length p ->
+         seq_plain (get p keys) = Some ks ->
+         (forall m : list (val * val),
+          get p o = OCat m ->
+          step zero p (ARemoveValues o keys) =
+          (put p o (OCat (snd (a_remove_all zero keq m ks))) ++
+           [OLst (fst (a_remove_all zero keq m ks))], RNew)) /\
+         (forall m : list (val * val),
+          get p o = OMap m ->
+          step zero p (ARemoveValues o keys) =
+          (put p o (OMap (snd (a_remove_all zero keq m ks))) ++
+           [OArr (fst (a_remove_all zero keq m ks))], RNew)).
+Proof. exact pool_remove_values. Qed.
+
+Theorem C14_pool_constructors_last_wins :
+  forall (zero : val) (l : list val) (kvs : list (val * val)),
+         vals_assoc l = Some kvs ->
+         build zero CCatalog l = Ret (OCat (a_set_all keq [] kvs)) /\
+         build zero CMap l = Ret (OMap (a_set_all keq [] kvs)) /\
+         wfm val val keq (a_set_all keq [] kvs) /\
+         (forall x : val, a_get keq (a_set_all keq [] kvs) x = a_get keq (rev kvs) x).
+Proof. exact pool_assoc_constructors. Qed.
+
+Theorem C14_views_are_new_objects :
+  forall (zero : val) (p : pool) (o : op) (p' : pool) (r : ret),
+         writes o = None ->
+         step zero p o = (p', r) -> forall i : nat, i < length p -> nth i p' ODead = nth i p ODead.
+Proof. exact no_receiver_changes_nothing. Qed.
+
+Theorem C14_snapshots_survive_later_updates :
+  forall (zero : val) (ops : list op) (p : list obj) (i : nat),
+         i < length p ->
+         (forall o : op, In o ops -> writes o <> Some i) ->
+         nth i (run zero p ops) ODead = nth i p ODead.
+Proof. exact run_frame. Qed.
+
+(* non-vacuity at pool level: a Map built from an array of associations with a repeated key (last wins), a key
+   snapshot taken (GetKeys -> slot 2), then RemoveAll while holding the snapshot, and a bulk removal with a
+   duplicate key on a second map: the snapshot is unchanged *)
+Example C14_pool_example :
+  run (iv 0) [] [NewSlice [VAssoc ka (iv 1); VAssoc kb (iv 2); VAssoc ka (iv 7)]; FromArray CMap 0;
+                 AKeys 1 [ka; kb]; RemoveAll 1; Pool.ASet 1 kc (iv 3)] =
+    [OSlice [VAssoc ka (iv 1); VAssoc kb (iv 2); VAssoc ka (iv 7)]; OMap [(kc, iv 3)]; OArr [ka; kb]] /\
+  run (iv 0) [OMap ex_cat; OSlice ex_req] [FromArray CList 1; ARemoveValues 0 2] =
+    [OMap [(kb, iv 2)]; OSlice ex_req; OLst ex_req; OArr [iv 3; iv 0; iv 1; iv 0]].
+Proof. split; vm_compute; reflexivity. Qed.
 
 
 Print Assumptions C14_every_history_refines_the_abstract_map.
@@ -105,3 +281,14 @@ Print Assumptions C14_bulk_remove.
 Print Assumptions C14_constructors_last_wins.
 Print Assumptions C14_constructors_distinct.
 Print Assumptions C14_unordered_views.
+Print Assumptions C14_go_key_equality_is_symmetric.
+Print Assumptions C14_go_key_equality_is_transitive.
+Print Assumptions C14_each_association_once_at_self_equal_keys.
+Print Assumptions C14_remove_returns_the_stored_value.
+Print Assumptions C14_bulk_remove_values_in_key_order.
+Print Assumptions C14_pool_keys_history_refines_the_abstract_map.
+Print Assumptions C14_pool_map_operations.
+Print Assumptions C14_pool_bulk_remove.
+Print Assumptions C14_pool_constructors_last_wins.
+Print Assumptions C14_views_are_new_objects.
+Print Assumptions C14_snapshots_survive_later_updates.
